@@ -67,7 +67,17 @@ RULE = (
     "all-sync and <= 3 all-async, plus A,A,B,[B2],CHANGE,A skeletons sync / async / "
     "alternating; the reference performs each tag's load as an ordinary load of the partial's "
     "(namespace, name) in document order, with the recency updates and evictions that "
-    "implies.  Load-context routing: the 'tagroute' family runs the documented "
+    "implies; the 'locals' family adds roots that bind the namespace key's NAME locally "
+    "(assign / capture / for variable / with / include argument) to the OTHER caller's "
+    "namespace, or pass it as a render argument, before a tag loads a partial — followed by "
+    "that other caller's loads, with modify/delete in between (local bindings never change "
+    "the namespace of a load; a render argument is a global of the rendered partial's context "
+    "and does, for the cache key and for a context-aware loader alike).  Matter: the "
+    "'globals' family also runs on the documented FrontMatterLoader customisation over "
+    "CachingFileSystemLoader and a dict-based equivalent (matter defines `site`, which the "
+    "environment may define too, and for one name `who`, which template globals / environment "
+    "globals / render arguments may define too: render argument > matter > template globals > "
+    "environment globals).  Load-context routing: the 'tagroute' family runs the documented "
     "SnippetsFileSystemLoader customisation (get_source serves include/render targets from "
     "snippets/, and a user keyword variant='alt' from alt/) over CachingFileSystemLoader and "
     "a dict-based equivalent against the same subclass of the uncached loader: every history "
@@ -131,7 +141,8 @@ ASSUMPTIONS = [
 
 FAMILIES = ("dict", "ctx", "choice-dict", "fs", "choice-fs")
 FS_FAMILIES = ("fs", "choice-fs")
-LOOP_FAMILIES = ("fs", "choice-fs", "fs-multi", "ns-fs", "p-fs", "tag-fs")
+LOOP_FAMILIES = ("fs", "choice-fs", "fs-multi", "ns-fs", "p-fs", "tag-fs", "m-fs")
+M_FAMILIES = ("m-dict", "m-fs")
 T_FAMILIES = ("tag-dict", "tag-fs")  # async needs a real event loop
 NS_FAMILIES = ("ns-dict", "ns-choice", "ns-fs")
 P_FAMILIES = ("p-dict", "p-ctx", "p-choice", "p-fs")
@@ -272,6 +283,27 @@ def _build_classes() -> Any:
         TagRouted.__name__ = "TagRouted" + base.__name__
         return TagRouted
 
+    def matter_aware(base):  # noqa: ANN001, ANN202
+        """The 'Matter' customisation of docs/loading_templates.md (FrontMatterLoader):
+        front matter at the top of the source becomes the template's matter."""
+
+        def split(ts):  # noqa: ANN001, ANN202
+            matter, text = ref.split_front_matter(ts.source)
+            return TemplateSource(text, ts.name, ts.uptodate, matter)
+
+        class FrontMatter(base):
+            def get_source(self, env, template_name, *, context=None, **kwargs):  # noqa: ANN001, ANN003, ANN201
+                return split(super().get_source(env, template_name, context=context, **kwargs))
+
+        if base.get_source_async is not BaseLoader.get_source_async:
+            async def get_source_async(self, env, template_name, *, context=None, **kwargs):  # noqa: ANN001, ANN003, ANN202
+                return split(await super(FrontMatter, self).get_source_async(
+                    env, template_name, context=context, **kwargs))
+
+            FrontMatter.get_source_async = get_source_async  # type: ignore[method-assign]
+        FrontMatter.__name__ = "FrontMatter" + base.__name__
+        return FrontMatter
+
     class GatedDictLoader(DictLoader):
         """get_source_async suspends once (scheduler decides who continues)."""
 
@@ -313,6 +345,10 @@ def _build_classes() -> Any:
     k.FaultyNsAwareDict = faulty(ns_aware(CachingDictLoader))
     k.FaultyNsAwareChoice = faulty(ns_aware(CachingChoiceLoader))
     k.FaultyNsAwareFs = faulty(ns_aware(CachingFileSystemLoader))
+    k.MatterDict = matter_aware(DictLoader)
+    k.MatterFs = matter_aware(FileSystemLoader)
+    k.FaultyMatterDict = faulty(matter_aware(CachingDictLoader))
+    k.FaultyMatterFs = faulty(matter_aware(CachingFileSystemLoader))
     k.TagRoutedDict = tag_routed(DictLoader)
     k.TagRoutedFs = tag_routed(FileSystemLoader)
     k.FaultyTagRoutedDict = faulty(tag_routed(CachingDictLoader))
@@ -808,6 +844,40 @@ class NsFsStore(Store):
         return e.stamp is not None and self.files.stamps.get(e.origin) == e.stamp
 
 
+class _MatterSources:
+    """Mixin: every source starts with front matter (c14_lru.m_body)."""
+
+    def body(self, place: str, name: str, version: int) -> str:
+        return ref.m_body(place, name, version)
+
+
+class MatterDictStore(_MatterSources, DictStore):
+    family = "m-dict"
+
+    def __init__(self) -> None:
+        super().__init__()
+        self.twin = K().MatterDict(self.t)
+
+    def make_loader(self, cap: int, auto: bool, nskey: str) -> Any:
+        ld = K().FaultyMatterDict(self.t, auto_reload=auto, namespace_key=nskey, capacity=cap)
+        ld.vf_store = self
+        return ld
+
+
+class MatterFsStore(_MatterSources, FsStore):
+    family = "m-fs"
+    subdir = "mfs"
+
+    def __init__(self, root: str) -> None:
+        super().__init__(root)
+        self.twin = K().MatterFs(self.dir)
+
+    def make_loader(self, cap: int, auto: bool, nskey: str) -> Any:
+        ld = K().FaultyMatterFs(self.dir, auto_reload=auto, namespace_key=nskey, capacity=cap)
+        ld.vf_store = self
+        return ld
+
+
 class _TagSources:
     """Mixin: foo / bar exist at top level, under snippets/ and under alt/, each with its
     own body (the marker's place says which one was served)."""
@@ -985,6 +1055,10 @@ class Harness:
                 st = NsChoiceStore()
             elif family == "ns-fs":
                 st = NsFsStore(self.root)
+            elif family == "m-dict":
+                st = MatterDictStore()
+            elif family == "m-fs":
+                st = MatterFsStore(self.root)
             elif family == "tag-dict":
                 st = TagDictStore()
             elif family == "tag-fs":
@@ -1135,7 +1209,8 @@ class Harness:
             # what the uncached twin returns at this moment (no injected fault)
             try:
                 ts = twin.get_source(env, name, **tkw)
-                now: tuple[Any, ...] = ("ok", ts.source, ts.name, st.stamp(ts.name))
+                now: tuple[Any, ...] = ("ok", ref.with_matter(ts.source, ts.matter), ts.name,
+                                        st.stamp(ts.name))
             except Exception as e:  # noqa: BLE001
                 now = ("err", type(e).__name__)
             if nskey and has_ns:
@@ -1161,10 +1236,10 @@ class Harness:
                     ).render(**rargs)
                 else:
                     full = tenv.get_template(name, globals=g, **kw).render(**rargs)
-                if full != ref.render_ref(now[1], who, site):
+                if full != ref.render_with_matter(now[1], rargs.get("who"), tmpl_who, env_who, site):
                     raise AssertionError(
                         f"reference rendering disagrees with the uncached twin: {full!r} "
-                        f"vs {ref.render_ref(now[1], who, site)!r}"
+                        f"vs {ref.render_with_matter(now[1], rargs.get('who'), tmpl_who, env_who, site)!r}"
                     )
                 ctx.count("twin_full_renders")
             obs = self.real_load(env, family, name, g, kw, op.mode, partial_tag, pglobals, rargs)
@@ -1173,7 +1248,8 @@ class Harness:
             exps = []
             for a in alts:
                 exp = (
-                    ("ok", ref.render_ref(a.outcome[1], who, site))
+                    ("ok", ref.render_with_matter(
+                        a.outcome[1], rargs.get("who"), tmpl_who, env_who, site))
                     if a.outcome[0] == "ok" else a.outcome
                 )
                 exps.append(exp)
@@ -1288,10 +1364,17 @@ class Harness:
                 g["who"] = who
             if has_ns:
                 g["ns"] = ns
+            # what the binding roots bind the namespace key's name to: the OTHER caller
+            other_ns = "t1" if ns == "t2" else "t2"
+            g["other"] = other_ns
+            g["others"] = [other_ns]
             events: list[str] = []
 
-            def mload(nm: str, tag: str, i: int = i, has_ns: bool = has_ns, ns: Any = ns,
+            def mload(nm: str, tag: str, other: bool = False, i: int = i,
+                      has_ns: bool = has_ns, ns: Any = ns, other_ns: str = other_ns,
                       events: list[str] = events) -> tuple[str, str]:
+                if other:
+                    has_ns, ns = True, other_ns  # a render argument IS a global in there
                 if tag:
                     tkw: dict[str, Any] = {
                         "context": self.render_context(0, has_ns, ns), "tag": tag}
@@ -1385,7 +1468,7 @@ class Harness:
         obs_marker = po[:3]
 
         def marker(src: str) -> tuple[str, str, int] | None:
-            p = ref.parse_out(ref.render_ref(src, None, None))
+            p = ref.parse_out(ref.render_ref(ref.plain_text(src), None, None))
             return p[:3] if p else None
 
         if po[1] != name:
@@ -1717,8 +1800,13 @@ def mtime_configs() -> list[dict[str, Any]]:
 
 def globals_configs() -> list[dict[str, Any]]:
     """Environment globals that define the same name as the per-load globals."""
-    return [{"family": f, "cap": c, "auto": True, "site": 2}
-            for f in ("dict", "choice-dict", "fs") for c in (1, 2)]
+    out = [{"family": f, "cap": c, "auto": True, "site": 2}
+           for f in ("dict", "choice-dict", "fs") for c in (1, 2)]
+    # sources with front matter (matter keys overlap with environment globals, and for
+    # one name with the per-load global too): with and without environment globals
+    out += [{"family": f, "cap": c, "auto": True, "site": st}
+            for f in M_FAMILIES for c in (1, 2) for st in (0, 2)]
+    return out
 
 
 GLOBALS_LEN = 3
@@ -1785,6 +1873,15 @@ def tagroute_expected() -> int:
         1 for ln in range(1, TAGROUTE_LEN + 1) for _ in ref.tagroute_histories(ln))
 
 
+def locals_configs() -> list[dict[str, Any]]:
+    return [{"family": "p-ctx", "cap": 2, "auto": True}, {"family": "p-ctx", "cap": 3, "auto": True},
+            {"family": "p-dict", "cap": 3, "auto": True}]
+
+
+def locals_expected() -> int:
+    return 2 * len(locals_configs()) * sum(1 for _ in ref.locals_histories())
+
+
 def nsval_configs() -> list[dict[str, Any]]:
     return [{"family": f, "cap": 2, "auto": True} for f in NS_FAMILIES]
 
@@ -1835,6 +1932,8 @@ def shards(tier: str, seed: int) -> list[dict[str, Any]]:  # noqa: ARG001
             specs.append({"kind": "partials", "cfg": cfg, "i": i, "n": npp})
     for cfg in globals_configs():
         specs.append({"kind": "globals", "cfg": cfg})
+    for cfg in locals_configs():
+        specs.append({"kind": "locals", "cfg": cfg})
     for cfg in tagroute_configs():
         nt2 = 2 if cfg["family"] == "tag-fs" else 1
         for i in range(nt2):
@@ -1868,7 +1967,8 @@ def floors(tier: str) -> dict[str, int]:
             "nsval_histories_done": 194_940,
             "partials_histories_done": 58_100,
             "ev:tag-load": 100_000,
-            "globals_histories_done": 16_368,
+            "globals_histories_done": 38_192,
+            "locals_histories_done": 13_968,
             "tagroute_histories_done": 25_248,
             "ev:reload-other-env": 500,
             "set:nsval_value_pairs": 110,
@@ -1901,7 +2001,8 @@ def floors(tier: str) -> dict[str, int]:
         "nsval_histories_done": 194_940,
         "partials_histories_done": 594_485,
         "ev:tag-load": 1_000_000,
-        "globals_histories_done": 16_368,
+        "globals_histories_done": 38_192,
+            "locals_histories_done": 13_968,
         "tagroute_histories_done": 25_248,
         "ev:reload-other-env": 5_000,
         "set:nsval_value_pairs": 110,
@@ -1937,6 +2038,8 @@ def exhaustive(tier: str, merged: dict[str, Any]) -> bool:
     if merged["counters"].get("globals_histories_done", 0) != globals_expected():
         return False
     if merged["counters"].get("tagroute_histories_done", 0) != tagroute_expected():
+        return False
+    if merged["counters"].get("locals_histories_done", 0) != locals_expected():
         return False
     return got == want and not merged.get("truncated") and not merged.get("failed")
 
@@ -1974,6 +2077,8 @@ def run_shard(spec: dict[str, Any], ctx: Ctx) -> None:
             _globals(h, spec, ctx)
         elif kind == "tagroute":
             _tagroute(h, spec, ctx)
+        elif kind == "locals":
+            _locals(h, spec, ctx)
         elif kind == "random":
             _random(h, spec, ctx)
         else:
@@ -2116,6 +2221,25 @@ def _globals(h: Harness, spec: dict[str, Any], ctx: Ctx) -> None:
                     "history": [ref.show_op(o, cfg["family"]) for o in last]})
 
 
+def _locals(h: Harness, spec: dict[str, Any], ctx: Ctx) -> None:
+    """Roots that bind the namespace key's name locally (assign / capture / for variable /
+    with / include argument) or pass it as a render argument, before tags load partials."""
+    cfg = spec["cfg"]
+    ctx.seen("configs", cfg_id(cfg))
+    last = None
+    for k, ops in enumerate(ref.locals_histories()):
+        if k & 255 == 0:
+            ctx.check_deadline()
+        for mode in (0, 1):
+            o2 = ref.with_mode(ops, mode)
+            _run_and_report(h, cfg, o2, ctx, "locals", only_last=True)
+            ctx.count("locals_histories_done")
+            last = o2
+    if last is not None:
+        ctx.sample({"kind": "locals", "cfg": cfg_id(cfg),
+                    "history": [ref.show_op(o, cfg["family"]) for o in last]})
+
+
 def _tagroute(h: Harness, spec: dict[str, Any], ctx: Ctx) -> None:
     """docs/loading_templates.md 'Load context': a subclass that routes on the `tag`
     keyword (and on a user keyword), cached vs its uncached counterpart."""
@@ -2232,7 +2356,8 @@ def _random_p_history(rng: random.Random, length: int, with_ns: bool) -> list[Op
 
     def load() -> Op:
         ns = rng.choice((0, 0, 1, 2)) if with_ns else 0
-        return Op("load", rng.choice(ref.P_TOPS), ns, rng.choice((0, 1, 1)), rng.randrange(2), 0)
+        top = rng.choice(ref.P_TOPS if rng.random() < 0.6 else ref.P_LOCAL_ROOTS)
+        return Op("load", top, ns, rng.choice((0, 1, 1)), rng.randrange(2), 0)
 
     for _ in range(length):
         r = rng.random()
@@ -2267,7 +2392,7 @@ def _random_t_history(rng: random.Random, length: int) -> list[Op]:
     return ops
 
 
-RANDOM_FAMILIES = (*FAMILIES, "fs-multi", *NS_FAMILIES, *P_FAMILIES, *T_FAMILIES)
+RANDOM_FAMILIES = (*FAMILIES, "fs-multi", *NS_FAMILIES, *P_FAMILIES, *T_FAMILIES, *M_FAMILIES)
 
 
 def _random(h: Harness, spec: dict[str, Any], ctx: Ctx) -> None:
